@@ -261,13 +261,16 @@ def judge_expression(prop, label, expr, ref: RG, value_ev, truth_fn, family_fn, 
     rds, amb = readings(value_ev)
     failures = []
     npts = 0
+    needs_env = getattr(truth_fn, "needs_env", False)
+    if needs_env:
+        fv = fv | set(truth_fn.env_names)
     for r, mode in [(r, md) for r in rds for md in modes]:
         sum_binds, literal, use_env, plus_lit = MODES[mode]
         universal = sorted(fv - set(r))
         bad = None
         for h, m, rv, av, fam in fams:
-            want = truth_fn(m, rv, av)
-            if want is None:
+            want = None if needs_env else truth_fn(m, rv, av)
+            if want is None and not needs_env:
                 continue
             den = Denoter(fam, ref=rv, alt=av, literal_subscripts=literal, sum_binds_subscripts=sum_binds,
                           plus_literal=plus_lit)
@@ -276,6 +279,10 @@ def judge_expression(prop, label, expr, ref: RG, value_ev, truth_fn, family_fn, 
                 env = dict(base_env)
                 env.update(zip(universal, vals))
                 den.do_env = env if use_env else {}
+                if needs_env:
+                    want = truth_fn(m, rv, av, env=env)
+                    if want is None:
+                        continue
                 try:
                     got = den.value(expr, env)
                 except Undefined:
@@ -531,6 +538,9 @@ def _judge_ctf(label, snap, res, exc):
     from y0.dsl import Expression
 
     ref, doms = snap["ref"], snap["domains"]
+    if ref is None:
+        kernel.count("C09:rejected-by-own-validation")
+        return
     out_ev, cond_ev = snap["outcomes"], snap["conditions"]
     case = {"graph": gd_of(ref), "outcomes": out_ev, "conditions": cond_ev, "domains": doms, "op": label}
     if not snap["valid"]:
@@ -572,6 +582,12 @@ def _judge_ctf(label, snap, res, exc):
     reflexive = any(c[0] in {i for i, _ in c[1]} for c in query)
 
     nonminimal = any(c[1] and ref_minimal_subscripts(g, c[0], c[1]) != sorted([i, bool(s)] for i, s in c[1]) for c in query)
+    if label == "ctfTR" and cond_ev and not nonminimal:
+        # the ancestral sets are re-computed after cutting the edges out of the conditioned variables, which can
+        # make a subscript irrelevant that was relevant in G (V1->V11->V2: V2_{v1} given V11_{v1})
+        g_cut = g.remove_out_edges({c[0] for c in cond_ev})
+        nonminimal = any(c[1] and ref_minimal_subscripts(g_cut, c[0], c[1]) != sorted([i, bool(s)] for i, s in c[1])
+                         for c in query)
 
     detached_condition = False
     if label == "ctfTR" and cond_ev:
@@ -613,13 +629,28 @@ def _judge_ctf(label, snap, res, exc):
     returned = gev.from_event(revent) if revent is not None else []
     value_ev = _candidates(valued, returned)
 
-    def truth(m, rv, av, zero_check=False):
-        pc = event_prob(m, [c for c in cond_ev if c[2] is not None], rv, av) if cond_ev else Fraction(1)
+    unvalued = [c for c in query if c[2] is None]
+
+    def _events(m, rv, av, conj, env):
+        out = gev.model_events([c for c in conj if c[2] is not None], rv, av)
+        for n, w, _ in conj:
+            if _ is None and env is not None and n in env:
+                out.append(({i: (av[i] if s2 else rv[i]) for i, s2 in w}, n, env[n]))
+        return out
+
+    def truth(m, rv, av, env=None, zero_check=False):
+        # a conjunct without a value stands for "whatever value the variable takes": it is a free variable of the
+        # answer, so the comparison is made for every value of it
+        pc = m.prob(_events(m, rv, av, cond_ev, env)) if cond_ev else Fraction(1)
         if zero_check:
             return event_prob(m, valued, rv, av)
         if pc == 0:
             return None
-        return event_prob(m, valued, rv, av) / pc
+        return m.prob(_events(m, rv, av, query, env)) / pc
+
+    if unvalued:
+        truth.needs_env = True
+        truth.env_names = sorted({c[0] for c in unvalued})
 
     from .denote import leaves
 
@@ -636,8 +667,11 @@ def _judge_ctf(label, snap, res, exc):
 def _snap_ctf(label, event, outcomes, conditions, target_domain_graph, domain_graphs, domain_data):
     import y0.algorithm.counterfactual_transport.api as api
 
-    ref = RG.from_nx(target_domain_graph)
     valid = True
+    try:
+        ref = RG.from_nx(target_domain_graph)
+    except Exception:  # noqa: BLE001 -- not even a graph (the repository's tests probe the validation with junk)
+        return {"ref": None, "valid": False, "domains": [], "outcomes": [], "conditions": []}
     try:
         if label == "ctfTRu":
             v = api._validate_transport_unconditional_counterfactual_query_input
